@@ -95,6 +95,105 @@ theorem tok_adv_pos {f : Bool} {p : List UInt8} {e : Bool} {adv : Nat} {t : List
         | nil => simp only at h; split at h <;> cases h; omega
         | cons c r' => simp only at h; split at h <;> cases h <;> omega
 
+/-! ### facts about `breakEOL` and the too-long test -/
+
+theorem breakEOL_append (p : List UInt8) : (breakEOL p).1 ++ (breakEOL p).2 = p := by
+  induction p with
+  | nil => rfl
+  | cons c cs ih =>
+    simp only [breakEOL]
+    split
+    · rfl
+    · simp [ih]
+
+theorem breakEOL_snd_nil {p a : List UInt8} (h : breakEOL p = (a, [])) : a = p := by
+  have := breakEOL_append p
+  rw [h] at this; simpa using this
+
+theorem breakEOL_fst_append_le (p x : List UInt8) :
+    (breakEOL p).1.length ≤ (breakEOL (p ++ x)).1.length := by
+  induction p with
+  | nil => simp [breakEOL]
+  | cons c cs ih =>
+    simp only [List.cons_append, breakEOL]
+    split
+    · simp
+    · simp; exact ih
+
+theorem breakEOL_fst_append_of_eol {p : List UInt8} (x : List UInt8) (h : (breakEOL p).2 ≠ []) :
+    (breakEOL (p ++ x)).1 = (breakEOL p).1 := by
+  rcases hb : breakEOL p with ⟨a, r⟩
+  rw [hb] at h
+  cases r with
+  | nil => simp at h
+  | cons b r => rw [breakEOL_cons_append x hb]
+
+/-- once too long, always too long: more data cannot repair it -/
+theorem lineTooLong_append {p : List UInt8} (x : List UInt8) (h : lineTooLong p = true) :
+    lineTooLong (p ++ x) = true := by
+  have := breakEOL_fst_append_le p x
+  simp only [lineTooLong, decide_eq_true_eq] at h ⊢
+  omega
+
+theorem lineTooLong_append_of_eol {p : List UInt8} (x : List UInt8) (h : (breakEOL p).2 ≠ []) :
+    lineTooLong (p ++ x) = lineTooLong p := by
+  simp only [lineTooLong, breakEOL_fst_append_of_eol x h]
+
+/-- a token is always the bytes before the first CR/LF of the data (all of it if there is none) -/
+theorem splitLine_tok_fst {f : Bool} {p : List UInt8} {e : Bool} {adv : Nat} {t : List UInt8}
+    (h : splitLine f p e = .tok adv t) : t = (breakEOL p).1 := by
+  unfold splitLine at h
+  split at h
+  · cases h
+  · rcases hb : breakEOL p with ⟨a, r⟩
+    rw [hb] at h
+    cases r with
+    | nil =>
+      simp only at h
+      split at h
+      · cases h; exact (breakEOL_snd_nil hb).symm
+      · cases h
+    | cons b r =>
+      simp only at h
+      split at h
+      · cases h; rfl
+      · cases r with
+        | nil => simp only at h; split at h <;> cases h; rfl
+        | cons c r' => simp only at h; split at h <;> cases h <;> rfl
+
+/-- before EOF a token is only cut at a CR/LF -/
+theorem tok_noeof_has_eol {f : Bool} {p : List UInt8} {adv : Nat} {t : List UInt8}
+    (h : splitLine f p false = .tok adv t) : (breakEOL p).2 ≠ [] := by
+  unfold splitLine at h
+  simp only [Bool.false_and, Bool.false_eq_true, ↓reduceIte] at h
+  rcases hb : breakEOL p with ⟨a, r⟩
+  rw [hb] at h
+  cases r with
+  | nil => simp at h
+  | cons b r => simp
+
+/-- **The scanner's own limit is out of reach** (repaired code): when the split function asks for
+    more data, at most `maxLineSize + 1` bytes are pending (65535 and a CR) — fewer than the
+    `maxLineSize + 2` bytes of the buffer. -/
+theorem more_lt_bufSize {p : List UInt8} (hl : lineTooLong p = false)
+    (h : splitLine true p false = .more) : p.length < bufSize true := by
+  simp only [lineTooLong, decide_eq_false_iff_not] at hl
+  unfold splitLine at h
+  simp only [Bool.false_and, Bool.false_eq_true, ↓reduceIte] at h
+  rcases hb : breakEOL p with ⟨a, r⟩
+  have hlen := breakEOL_len hb
+  rw [hb] at h hl
+  simp only [bufSize, ↓reduceIte]
+  cases r with
+  | nil => simp at hlen hl ⊢; omega
+  | cons b r =>
+    simp only at h
+    split at h
+    · cases h
+    · cases r with
+      | nil => simp at hlen hl ⊢; omega
+      | cons c r' => simp only at h; split at h <;> cases h
+
 /-! unfolding lemmas keep `split` away from the well-founded definitions -/
 
 theorem drain_tok {f : Bool} {p : List UInt8} {adv : Nat} {t : List UInt8}
@@ -104,119 +203,306 @@ theorem drain_tok {f : Bool} {p : List UInt8} {adv : Nat} {t : List UInt8}
   · rename_i h'; rw [h] at h'; cases h'; simp [h0]
   · rename_i h'; exact (h' _ _ h).elim
 
+theorem drain_nil (f : Bool) : drain f [] = [] := by
+  rw [drain]; split
+  · rename_i h'; simp [splitLine] at h'
+  · rfl
+
+theorem splitLine_eof_nil (f : Bool) : splitLine f [] true = .stop := by simp [splitLine]
+
+/-- at EOF non-empty data always yields a token -/
+theorem splitLine_eof_tok (f : Bool) {p : List UInt8} (hp : p ≠ []) :
+    ∃ adv t, splitLine f p true = .tok adv t := by
+  unfold splitLine
+  have : (true && p.isEmpty) = false := by cases p <;> simp_all
+  rw [this]; simp only [Bool.false_eq_true, ↓reduceIte]
+  rcases hb : breakEOL p with ⟨a, r⟩
+  cases r with
+  | nil => simp
+  | cons b r =>
+    simp only
+    split
+    · simp
+    · cases r with
+      | nil => simp
+      | cons c r' => simp only; split <;> simp
+
+theorem drainL_long {p : List UInt8} (h : lineTooLong p = true) : drainL true p = ([], true) := by
+  rw [drainL]; simp [h]
+
+theorem drainL_tok {f : Bool} {p : List UInt8} {adv : Nat} {t : List UInt8}
+    (hl : (f && lineTooLong p) = false) (h : splitLine f p true = .tok adv t) :
+    drainL f p = (t :: (drainL f (p.drop adv)).1, (drainL f (p.drop adv)).2) := by
+  have h0 := tok_adv_pos h
+  rw [drainL]; simp only [hl, Bool.false_eq_true, ↓reduceIte]
+  split
+  · rename_i h'; rw [h] at h'; cases h'; simp [h0]
+  · rename_i h'; exact (h' _ _ h).elim
+
+theorem lineTooLong_nil : lineTooLong [] = false := by simp [lineTooLong, breakEOL]
+
+theorem drainL_nil (f : Bool) : drainL f [] = ([], false) := by
+  rw [drainL]; simp only [lineTooLong_nil, Bool.and_false, Bool.false_eq_true, ↓reduceIte]
+  split
+  · rename_i h'; simp [splitLine] at h'
+  · rfl
+
 theorem scan_nil (f : Bool) (p : List UInt8) (e : End) (k : Nat) :
-    scan f p [] e k = (drain f p, match e with | .eof => none | .fault => some .io) := by
+    scan f p [] e k = ((drainL f p).1, finalErr e (drainL f p).2) := by
   unfold scan; rfl
 
+/-- the split function's own error ends the scan -/
+theorem scan_long {p c : List UInt8} {cs : List (List UInt8)} {e : End} {k : Nat}
+    (hl : lineTooLong p = true) : scan true p (c :: cs) e k = ([], some .tooLong) := by
+  rw [scan]; simp [hl]
+
 theorem scan_tok {f : Bool} {p c : List UInt8} {cs : List (List UInt8)} {e : End} {k adv : Nat} {t : List UInt8}
-    (h : splitLine f p false = .tok adv t) :
+    (hl : (f && lineTooLong p) = false) (h : splitLine f p false = .tok adv t) :
     scan f p (c :: cs) e k = (t :: (scan f (p.drop adv) (c :: cs) e 0).1, (scan f (p.drop adv) (c :: cs) e 0).2) := by
   have h0 := tok_adv_pos h
-  rw [scan]; split <;> rename_i h' <;> rw [h] at h' <;> cases h'
+  rw [scan]; simp only [hl, Bool.false_eq_true, ↓reduceIte]
+  split <;> rename_i h' <;> rw [h] at h' <;> cases h'
   simp [h0]
 
 theorem scan_more {f : Bool} {p c : List UInt8} {cs : List (List UInt8)} {e : End} {k : Nat}
-    (h : splitLine f p false = .more) :
+    (hl : (f && lineTooLong p) = false) (h : splitLine f p false = .more) :
     scan f p (c :: cs) e k =
-      if p.length ≥ maxTokenSize then ([], some .tooLong)
+      if p.length ≥ bufSize f then ([], some .tooLong)
       else if c.isEmpty then
-        (if k + 1 > maxEmptyReads then (drain f p, some .noProgress) else scan f p cs e (k + 1))
-      else if p.length + c.length > maxTokenSize then (drain f p, some .badRead)
+        (if k + 1 > maxEmptyReads then ((drainL f p).1, some .noProgress) else scan f p cs e (k + 1))
+      else if p.length + c.length > bufSize f then ((drainL f p).1, some .badRead)
       else scan f (p ++ c) cs e 0 := by
-  rw [scan]; split <;> rename_i h' <;> rw [h] at h' <;> cases h'
+  rw [scan]; simp only [hl, Bool.false_eq_true, ↓reduceIte]
+  split <;> rename_i h' <;> rw [h] at h' <;> cases h'
 
-def endErr : End → Option ScanErr
-  | .eof => none
-  | .fault => some .io
+/-- the measure of the inner induction: a token consumes at least one byte -/
+theorem drop_tok_lt {f : Bool} {p : List UInt8} {e : Bool} {adv : Nat} {t : List UInt8}
+    (h : splitLine f p e = .tok adv t) : (p.drop adv).length < p.length := by
+  have hne := splitLine_tok_ne_nil h
+  have h0 := tok_adv_pos h
+  cases p with
+  | nil => contradiction
+  | cons => simp; omega
+
+/-! ### the pinned code has no too-long test -/
+
+theorem drainL_false (p : List UInt8) : drainL false p = (drain false p, false) := by
+  induction hn : p.length using Nat.strongRecOn generalizing p with
+  | _ n ih =>
+    by_cases hp : p = []
+    · subst hp; rw [drainL_nil, drain_nil]
+    · obtain ⟨adv, t, hs⟩ := splitLine_eof_tok false hp
+      rw [drainL_tok (by simp) hs, drain_tok hs, ih _ (by subst hn; exact drop_tok_lt hs) _ rfl]
+
+/-! ### the byte-level semantics: `drainL true` is "the lines before the first long one" -/
+
+theorem linesOf_empty : linesOf [] = [] := drain_nil true
+
+theorem linesOf_cons {p : List UInt8} {adv : Nat} {t : List UInt8}
+    (h : splitLine true p true = .tok adv t) : linesOf p = (breakEOL p).1 :: linesOf (p.drop adv) := by
+  unfold linesOf; rw [drain_tok h, splitLine_tok_fst h]
+
+theorem drainL_bytes (p : List UInt8) : drainL true p = (linesBefore p, firstLong p) := by
+  induction hn : p.length using Nat.strongRecOn generalizing p with
+  | _ n ih =>
+    by_cases hp : p = []
+    · subst hp; rw [drainL_nil]; simp [linesBefore, firstLong, linesOf_empty]
+    · obtain ⟨adv, t, hs⟩ := splitLine_eof_tok true hp
+      have hlo := linesOf_cons hs
+      cases hl : lineTooLong p with
+      | true =>
+        rw [drainL_long hl]
+        simp only [lineTooLong, decide_eq_true_eq] at hl
+        have hnle : ¬ (breakEOL p).1.length ≤ maxLineSize := by omega
+        simp [linesBefore, firstLong, hlo, hl, hnle]
+      | false =>
+        rw [drainL_tok (by simp [hl]) hs, ih _ (by subst hn; exact drop_tok_lt hs) _ rfl]
+        simp only [lineTooLong, decide_eq_false_iff_not] at hl
+        have hle : (breakEOL p).1.length ≤ maxLineSize := by omega
+        simp [linesBefore, firstLong, hlo, hl, hle, splitLine_tok_fst hs]
+
+theorem takeWhile_le_of_not_any_gt (M : Nat) (ls : List (List UInt8))
+    (h : (ls.any fun l => decide (l.length > M)) = false) :
+    (ls.takeWhile fun l => decide (l.length ≤ M)) = ls := by
+  induction ls with
+  | nil => rfl
+  | cons l ls ih =>
+    simp only [List.any_cons, Bool.or_eq_false_iff, decide_eq_false_iff_not] at h
+    have : l.length ≤ M := by omega
+    simp [this, ih h.2]
+
+theorem mem_takeWhile_le (M : Nat) (ls : List (List UInt8)) :
+    ∀ t ∈ (ls.takeWhile fun l => decide (l.length ≤ M)), t.length ≤ M := by
+  induction ls with
+  | nil => simp
+  | cons l ls ih =>
+    intro t ht
+    rw [List.takeWhile_cons] at ht
+    split at ht
+    · rename_i hd
+      rcases mem_cons.mp ht with rfl | ht
+      · simpa using hd
+      · exact ih t ht
+    · simp at ht
+
+/-- without a long line nothing is cut off -/
+theorem linesBefore_eq_of_not_long {bs : List UInt8} (h : firstLong bs = false) :
+    linesBefore bs = linesOf bs :=
+  takeWhile_le_of_not_any_gt maxLineSize (linesOf bs) h
+
+/-! ### the scanner, for every schedule -/
 
 /-- the run hit none of the scanner's own limits -/
 def LimitFree (r : Option ScanErr) : Prop := r ≠ some .tooLong ∧ r ≠ some .noProgress ∧ r ≠ some .badRead
 
-/-- **Core of C17.** If the run hit neither the 64 KiB token limit nor the empty-read limit, the
-    tokens are exactly the lines of the delivered bytes and the error is the stream's own — for
-    every schedule. -/
-theorem scan_spec (p : List UInt8) (cs : List (List UInt8)) (e : End) (k : Nat)
-    (hno : LimitFree (scan true p cs e k).2) :
-    scan true p cs e k = (drain true (p ++ cs.flatten), endErr e) := by
+/-- the reader did not misbehave: the run hit neither the empty-read limit nor a bad read count -/
+def NoStall (r : Option ScanErr) : Prop := r ≠ some .noProgress ∧ r ≠ some .badRead
+
+theorem LimitFree.noStall {r : Option ScanErr} (h : LimitFree r) : NoStall r := ⟨h.2.1, h.2.2⟩
+
+/-- **Core of C17 (repaired code).** Unless the reader misbehaves (100 empty reads, a bad read
+    count), the tokens are those of the end-of-input run over all the bytes — for every schedule —
+    and the error is either the one that run gives (`finalErr`), or `bufio.ErrTooLong` reported by
+    the split function before the end of the stream was seen (then that run is too long as well). -/
+theorem scan_full (p : List UInt8) (cs : List (List UInt8)) (e : End) (k : Nat)
+    (hno : NoStall (scan true p cs e k).2) :
+    (scan true p cs e k).1 = (drainL true (p ++ cs.flatten)).1 ∧
+    ((scan true p cs e k).2 = finalErr e (drainL true (p ++ cs.flatten)).2 ∨
+      ((drainL true (p ++ cs.flatten)).2 = true ∧ (scan true p cs e k).2 = some .tooLong)) := by
   induction cs generalizing p k with
-  | nil => rw [scan_nil]; simp; cases e <;> rfl
+  | nil => rw [scan_nil]; simp
   | cons c cs ih =>
     induction hn : p.length using Nat.strongRecOn generalizing p k with
     | _ n ihn =>
-      unfold LimitFree at hno
-      cases hs : splitLine true p false with
-      | stop => exact absurd hs (splitLine_noeof_ne_stop true p)
-      | more =>
-        rw [scan_more hs] at hno ⊢
-        by_cases h1 : p.length ≥ maxTokenSize
-        · simp [h1] at hno
-        · simp only [h1, ↓reduceIte] at hno ⊢
+      unfold NoStall at hno
+      cases hl : lineTooLong p with
+      | true =>
+        rw [scan_long hl, drainL_long (lineTooLong_append _ hl)]
+        simp
+      | false =>
+        have hl' : (true && lineTooLong p) = false := by simp [hl]
+        cases hs : splitLine true p false with
+        | stop => exact absurd hs (splitLine_noeof_ne_stop true p)
+        | more =>
+          have h1 : ¬ p.length ≥ bufSize true := by have := more_lt_bufSize hl hs; omega
+          rw [scan_more hl' hs] at hno ⊢
+          simp only [h1, ↓reduceIte] at hno ⊢
           by_cases h2 : c.isEmpty
           · simp only [h2, ↓reduceIte] at hno ⊢
             by_cases h3 : k + 1 > maxEmptyReads
             · simp [h3] at hno
             · simp only [h3, ↓reduceIte] at hno ⊢
-              rw [ih p (k + 1) hno]
               have : c = [] := by simpa using h2
-              simp [this]
+              subst this
+              simpa using ih p (k + 1) hno
           · simp only [h2, Bool.false_eq_true, ↓reduceIte] at hno ⊢
-            by_cases h4 : p.length + c.length > maxTokenSize
+            by_cases h4 : p.length + c.length > bufSize true
             · simp [h4] at hno
             · simp only [h4, ↓reduceIte] at hno ⊢
-              rw [ih (p ++ c) 0 hno]; simp
-      | tok adv t =>
-        have ⟨hst, hle⟩ := splitLine_tok_stable hs (c :: cs).flatten true
-        have hne := splitLine_tok_ne_nil hs
-        have h0 := tok_adv_pos hs
-        rw [scan_tok hs] at hno ⊢
-        rw [drain_tok hst]
-        have hlt : (p.drop adv).length < n := by
-          subst hn
-          cases p with
-          | nil => contradiction
-          | cons => simp; omega
-        have := ihn (p.drop adv).length hlt (p.drop adv) 0 hno rfl
-        rw [this, List.drop_append_of_le_length hle]
+              simpa using ih (p ++ c) 0 hno
+        | tok adv t =>
+          have ⟨hst, hle⟩ := splitLine_tok_stable hs (c :: cs).flatten true
+          have heol := tok_noeof_has_eol hs
+          have hl2 : (true && lineTooLong (p ++ (c :: cs).flatten)) = false := by
+            rw [lineTooLong_append_of_eol _ heol]; exact hl'
+          rw [scan_tok hl' hs] at hno ⊢
+          rw [drainL_tok hl2 hst, List.drop_append_of_le_length hle]
+          have := ihn _ (by subst hn; exact drop_tok_lt hs) (p.drop adv) 0 hno rfl
+          simp only [List.cons.injEq, true_and]
+          exact this
+
+/-- the same, in terms of the bytes: the tokens are the lines before the first long line -/
+theorem scan_bytes_gen (p : List UInt8) (cs : List (List UInt8)) (e : End) (k : Nat)
+    (hno : NoStall (scan true p cs e k).2) :
+    (scan true p cs e k).1 = linesBefore (p ++ cs.flatten) ∧
+    ((scan true p cs e k).2 = finalErr e (firstLong (p ++ cs.flatten)) ∨
+      (firstLong (p ++ cs.flatten) = true ∧ (scan true p cs e k).2 = some .tooLong)) := by
+  have := scan_full p cs e k hno
+  rwa [drainL_bytes] at this
+
+/-- when the stream ends with `io.EOF` the whole result is a function of the bytes -/
+theorem scan_bytes_eof (p : List UInt8) (cs : List (List UInt8)) (k : Nat)
+    (hno : NoStall (scan true p cs .eof k).2) :
+    scan true p cs .eof k =
+      (linesBefore (p ++ cs.flatten), if firstLong (p ++ cs.flatten) then some .tooLong else none) := by
+  obtain ⟨h1, h2⟩ := scan_bytes_gen p cs .eof k hno
+  refine Prod.ext h1 ?_
+  rcases h2 with h2 | ⟨hl, h2⟩
+  · simpa [finalErr] using h2
+  · simp [hl, h2]
+
+/-- **Core of C17 (as before the repair).** If the run hit neither the line-length limit nor the
+    empty-read limit nor a bad read count, the error is the stream's own and the tokens are the
+    lines of the delivered bytes (all of them when the stream ended with `io.EOF`; when it ended
+    with a read error, those before a final over-long line that the read error masks). -/
+theorem scan_spec (p : List UInt8) (cs : List (List UInt8)) (e : End) (k : Nat)
+    (hno : LimitFree (scan true p cs e k).2) :
+    scan true p cs e k = (linesBefore (p ++ cs.flatten), endErr e) := by
+  obtain ⟨h1, h2⟩ := scan_bytes_gen p cs e k hno.noStall
+  refine Prod.ext h1 ?_
+  rcases h2 with h2 | ⟨_, h2⟩
+  · cases e with
+    | fault => simpa [finalErr, endErr] using h2
+    | eof =>
+      cases hf : firstLong (p ++ cs.flatten) with
+      | false => simpa [finalErr, endErr, hf] using h2
+      | true => rw [hf] at h2; exact absurd h2 hno.1
+  · exact absurd h2 hno.1
+
+theorem scan_spec_eof (p : List UInt8) (cs : List (List UInt8)) (k : Nat)
+    (hno : LimitFree (scan true p cs .eof k).2) :
+    scan true p cs .eof k = (drain true (p ++ cs.flatten), none) := by
+  have h := scan_bytes_eof p cs k hno.noStall
+  cases hf : firstLong (p ++ cs.flatten) with
+  | true => rw [h, hf] at hno; exact absurd rfl hno.1
+  | false =>
+    rw [h, hf, linesBefore_eq_of_not_long hf]; rfl
 
 /-- **Core of C18 (reads).** A stream that ends in an error other than EOF always leaves the
     scanner with a non-nil error — whatever the schedule, the fault offset and the data. -/
 theorem scan_fault (f : Bool) (p : List UInt8) (cs : List (List UInt8)) (k : Nat) :
     (scan f p cs .fault k).2 ≠ none := by
   induction cs generalizing p k with
-  | nil => rw [scan_nil]; simp
+  | nil => rw [scan_nil]; simp [finalErr]
   | cons c cs ih =>
     induction hn : p.length using Nat.strongRecOn generalizing p k with
     | _ n ihn =>
-      cases hs : splitLine f p false with
-      | stop => exact absurd hs (splitLine_noeof_ne_stop f p)
-      | more =>
-        rw [scan_more hs]
-        split
-        · simp
-        · split
+      cases hl : (f && lineTooLong p) with
+      | true =>
+        have hf : f = true := by cases f <;> simp_all
+        subst hf
+        rw [scan_long (by simpa using hl)]; simp
+      | false =>
+        cases hs : splitLine f p false with
+        | stop => exact absurd hs (splitLine_noeof_ne_stop f p)
+        | more =>
+          rw [scan_more hl hs]
+          split
+          · simp
           · split
-            · simp
-            · exact ih p (k + 1)
-          · split
-            · simp
-            · exact ih (p ++ c) 0
-      | tok adv t =>
-        have hne := splitLine_tok_ne_nil hs
-        have h0 := tok_adv_pos hs
-        rw [scan_tok hs]
-        have hlt : (p.drop adv).length < n := by
-          subst hn
-          cases p with
-          | nil => contradiction
-          | cons => simp; omega
-        exact ihn (p.drop adv).length hlt (p.drop adv) 0 rfl
+            · split
+              · simp
+              · exact ih p (k + 1)
+            · split
+              · simp
+              · exact ih (p ++ c) 0
+        | tok adv t =>
+          rw [scan_tok hl hs]
+          exact ihn _ (by subst hn; exact drop_tok_lt hs) (p.drop adv) 0 rfl
 
-end Go
-end Astisub
+/-- **Core of the long-line clause of C18.** The split function's own error is never lost: when
+    it is reported the scanner's error is not nil — `bufio.ErrTooLong`, or the error latched
+    before it (`setErr` keeps the first). Here: a too-long pending line at any point of the run. -/
+theorem scan_pending_long (p : List UInt8) (cs : List (List UInt8)) (e : End) (k : Nat)
+    (hl : lineTooLong p = true) : (scan true p cs e k).2 = some .tooLong ∨ (e = .fault ∧ cs = []) := by
+  cases cs with
+  | nil =>
+    cases e with
+    | fault => right; exact ⟨rfl, rfl⟩
+    | eof => left; rw [scan_nil, drainL_long hl]; rfl
+  | cons c cs => left; rw [scan_long hl]
 
-namespace Astisub
-namespace Go
-open List
+/-! ### token lengths -/
 
 theorem breakEOL_fst_len (p : List UInt8) : (breakEOL p).1.length ≤ p.length := by
   have := breakEOL_len (p := p) (a := (breakEOL p).1) (r := (breakEOL p).2) rfl
@@ -225,80 +511,223 @@ theorem breakEOL_fst_len (p : List UInt8) : (breakEOL p).1.length ≤ p.length :
 /-- a token is never longer than the data it was cut from -/
 theorem splitLine_tok_len {f : Bool} {p : List UInt8} {e : Bool} {adv : Nat} {t : List UInt8}
     (h : splitLine f p e = .tok adv t) : t.length ≤ p.length := by
-  unfold splitLine at h
-  split at h
-  · cases h
-  · rcases hb : breakEOL p with ⟨a, r⟩
-    have hl := breakEOL_len hb
-    rw [hb] at h
-    cases r with
-    | nil => simp only at h; split at h <;> cases h; omega
-    | cons b r =>
-      simp only at h
-      split at h
-      · cases h; omega
-      · cases r with
-        | nil => simp only at h; split at h <;> cases h; omega
-        | cons c r' => simp only at h; split at h <;> cases h <;> omega
+  rw [splitLine_tok_fst h]; exact breakEOL_fst_len p
 
 theorem drain_tok_len (f : Bool) (p : List UInt8) : ∀ t ∈ drain f p, t.length ≤ p.length := by
   induction hn : p.length using Nat.strongRecOn generalizing p with
   | _ n ih =>
     intro t ht
-    cases hs : splitLine f p true with
-    | tok adv tk =>
+    by_cases hp : p = []
+    · subst hp; rw [drain_nil] at ht; simp at ht
+    · obtain ⟨adv, tk, hs⟩ := splitLine_eof_tok f hp
       rw [drain_tok hs] at ht
-      have hne := splitLine_tok_ne_nil hs
-      have h0 := tok_adv_pos hs
       rcases mem_cons.mp ht with rfl | ht
       · have := splitLine_tok_len hs; omega
-      · have hlt : (p.drop adv).length < n := by
-          subst hn
-          cases p with
-          | nil => contradiction
-          | cons => simp; omega
-        have := ih _ hlt (p.drop adv) rfl t ht
-        simp at this; omega
-    | more => rw [drain] at ht; split at ht <;> rename_i h' <;> rw [hs] at h' <;> first | cases h' | simp at ht
-    | stop => rw [drain] at ht; split at ht <;> rename_i h' <;> rw [hs] at h' <;> first | cases h' | simp at ht
+      · have hlt := drop_tok_lt hs
+        have := ih _ (by subst hn; exact hlt) (p.drop adv) rfl t ht
+        omega
 
-/-- no token delivered by the scanner exceeds the buffer (pending data never exceeds 65536 bytes) -/
+theorem drainL_tok_len (f : Bool) (p : List UInt8) : ∀ t ∈ (drainL f p).1, t.length ≤ p.length := by
+  induction hn : p.length using Nat.strongRecOn generalizing p with
+  | _ n ih =>
+    intro t ht
+    cases hl : (f && lineTooLong p) with
+    | true =>
+      have hf : f = true := by cases f <;> simp_all
+      subst hf
+      rw [drainL_long (by simpa using hl)] at ht; simp at ht
+    | false =>
+      by_cases hp : p = []
+      · subst hp; rw [drainL_nil] at ht; simp at ht
+      · obtain ⟨adv, tk, hs⟩ := splitLine_eof_tok f hp
+        rw [drainL_tok hl hs] at ht
+        rcases mem_cons.mp ht with rfl | ht
+        · have := splitLine_tok_len hs; omega
+        · have hlt := drop_tok_lt hs
+          have := ih _ (by subst hn; exact hlt) (p.drop adv) rfl t ht
+          omega
+
+/-- no token delivered by the scanner exceeds the buffer (pending data never exceeds `bufSize`) -/
 theorem scan_tok_len (f : Bool) (p : List UInt8) (cs : List (List UInt8)) (e : End) (k : Nat)
-    (hp : p.length ≤ maxTokenSize) : ∀ t ∈ (scan f p cs e k).1, t.length ≤ maxTokenSize := by
+    (hp : p.length ≤ bufSize f) : ∀ t ∈ (scan f p cs e k).1, t.length ≤ bufSize f := by
   induction cs generalizing p k with
   | nil =>
     rw [scan_nil]; intro t ht
-    have := drain_tok_len f p t ht; omega
+    have := drainL_tok_len f p t ht; omega
   | cons c cs ih =>
     induction hn : p.length using Nat.strongRecOn generalizing p k with
     | _ n ihn =>
-      cases hs : splitLine f p false with
-      | stop => exact absurd hs (splitLine_noeof_ne_stop f p)
-      | more =>
-        rw [scan_more hs]
-        split
-        · simp
-        · split
+      cases hl : (f && lineTooLong p) with
+      | true =>
+        have hf : f = true := by cases f <;> simp_all
+        subst hf
+        rw [scan_long (by simpa using hl)]; simp
+      | false =>
+        cases hs : splitLine f p false with
+        | stop => exact absurd hs (splitLine_noeof_ne_stop f p)
+        | more =>
+          rw [scan_more hl hs]
+          split
+          · simp
           · split
-            · intro t ht; have := drain_tok_len f p t ht; omega
-            · exact ih p (k + 1) hp
+            · split
+              · intro t ht; have := drainL_tok_len f p t ht; omega
+              · exact ih p (k + 1) hp
+            · split
+              · intro t ht; have := drainL_tok_len f p t ht; omega
+              · rename_i h4
+                exact ih (p ++ c) 0 (by simp at h4 ⊢; omega)
+        | tok adv tk =>
+          rw [scan_tok hl hs]
+          intro t ht
+          rcases mem_cons.mp ht with rfl | ht
+          · have := splitLine_tok_len hs; omega
+          · have hlt := drop_tok_lt hs
+            exact ihn _ (by subst hn; exact hlt) (p.drop adv) 0 (by omega) rfl t ht
+
+/-- the repaired scanner never delivers a line of more than `maxLineSize` bytes — whatever the
+    schedule, the pending bytes and the way the stream ends -/
+theorem drainL_tok_le (p : List UInt8) : ∀ t ∈ (drainL true p).1, t.length ≤ maxLineSize := by
+  rw [drainL_bytes]; intro t ht
+  exact mem_takeWhile_le maxLineSize (linesOf p) t ht
+
+theorem scan_tok_le (p : List UInt8) (cs : List (List UInt8)) (e : End) (k : Nat) :
+    ∀ t ∈ (scan true p cs e k).1, t.length ≤ maxLineSize := by
+  induction cs generalizing p k with
+  | nil => rw [scan_nil]; exact drainL_tok_le p
+  | cons c cs ih =>
+    induction hn : p.length using Nat.strongRecOn generalizing p k with
+    | _ n ihn =>
+      cases hl : lineTooLong p with
+      | true => rw [scan_long hl]; simp
+      | false =>
+        have hl' : (true && lineTooLong p) = false := by simp [hl]
+        cases hs : splitLine true p false with
+        | stop => exact absurd hs (splitLine_noeof_ne_stop true p)
+        | more =>
+          rw [scan_more hl' hs]
+          split
+          · simp
           · split
-            · intro t ht; have := drain_tok_len f p t ht; omega
-            · rename_i h4
-              exact ih (p ++ c) 0 (by simp at h4 ⊢; omega)
-      | tok adv tk =>
-        have hne := splitLine_tok_ne_nil hs
-        have h0 := tok_adv_pos hs
-        rw [scan_tok hs]
-        intro t ht
-        rcases mem_cons.mp ht with rfl | ht
-        · have := splitLine_tok_len hs; omega
-        · have hlt : (p.drop adv).length < n := by
-            subst hn
-            cases p with
-            | nil => contradiction
-            | cons => simp; omega
-          exact ihn _ hlt (p.drop adv) 0 (by simp; omega) rfl t ht
+            · split
+              · exact drainL_tok_le p
+              · exact ih p (k + 1)
+            · split
+              · exact drainL_tok_le p
+              · exact ih (p ++ c) 0
+        | tok adv tk =>
+          rw [scan_tok hl' hs]
+          intro t ht
+          rcases mem_cons.mp ht with rfl | ht
+          · rw [splitLine_tok_fst hs]
+            simpa [lineTooLong] using hl
+          · exact ihn _ (by subst hn; exact drop_tok_lt hs) (p.drop adv) 0 rfl t ht
+
+/-! ### when the hypothesis `NoStall` holds; long lines without evaluating 65536-element lists -/
+
+theorem noStall_finalErr (e : End) (b : Bool) : NoStall (finalErr e b) := by
+  cases e <;> cases b <;> simp [NoStall, finalErr]
+
+theorem splitLine_nil_noeof (f : Bool) : splitLine f [] false = .more := by simp [splitLine, breakEOL]
+
+theorem bufSize_pos (f : Bool) : 0 < bufSize f := by cases f <;> simp [bufSize, maxLineSize, maxTokenSize]
+
+/-- the first read of a run -/
+theorem scan_start (f : Bool) (c : List UInt8) (cs : List (List UInt8)) (e : End) (k : Nat) :
+    scan f [] (c :: cs) e k =
+      if c.isEmpty then (if k + 1 > maxEmptyReads then ([], some .noProgress) else scan f [] cs e (k + 1))
+      else if c.length > bufSize f then ([], some .badRead)
+      else scan f c cs e 0 := by
+  have := bufSize_pos f
+  rw [scan_more (by simp [lineTooLong_nil]) (splitLine_nil_noeof f)]
+  simp [drainL_nil]
+  omega
+
+/-- a reader that returns one byte per `Read` never runs into the scanner's checks on readers:
+    with the repaired buffer of `maxLineSize + 2` bytes there is always room for it -/
+theorem noStall_bytewise (p : List UInt8) (cs : List (List UInt8)) (e : End) (k : Nat)
+    (h : ∀ c ∈ cs, c.length = 1) : NoStall (scan true p cs e k).2 := by
+  induction cs generalizing p k with
+  | nil => rw [scan_nil]; exact noStall_finalErr _ _
+  | cons c cs ih =>
+    have hc : c.length = 1 := h c (by simp)
+    have hcs : ∀ c ∈ cs, c.length = 1 := fun c' hc' => h c' (by simp [hc'])
+    induction hn : p.length using Nat.strongRecOn generalizing p k with
+    | _ n ihn =>
+      cases hl : lineTooLong p with
+      | true => rw [scan_long hl]; simp [NoStall]
+      | false =>
+        have hl' : (true && lineTooLong p) = false := by simp [hl]
+        cases hs : splitLine true p false with
+        | stop => exact absurd hs (splitLine_noeof_ne_stop true p)
+        | more =>
+          have h1 := more_lt_bufSize hl hs
+          have h2 : c.isEmpty = false := by cases c <;> simp_all
+          rw [scan_more hl' hs]
+          rw [if_neg (by omega), h2, if_neg (by simp), if_neg (by omega)]
+          exact ih (p ++ c) 0 hcs
+        | tok adv t =>
+          rw [scan_tok hl' hs]
+          exact ihn _ (by subst hn; exact drop_tok_lt hs) (p.drop adv) 0 rfl
+
+/-- a reader that returns the whole stream (at most the buffer's `maxLineSize + 2` bytes) in one
+    `Read` — with or without `io.EOF` in the same call, see the header of `Go/Bufio.lean` -/
+theorem noStall_one_read (bs : List UInt8) (e : End) (h : bs.length ≤ bufSize true) :
+    NoStall (scan true [] [bs] e 0).2 := by
+  rw [scan_start]
+  by_cases hb : bs.isEmpty
+  · have : ¬ (0 + 1 > maxEmptyReads) := by simp [maxEmptyReads]
+    simp only [hb, ↓reduceIte]
+    rw [if_neg this, scan_nil]; exact noStall_finalErr _ _
+  · simp only [hb, Bool.false_eq_true, ↓reduceIte]
+    rw [if_neg (by omega), scan_nil]; exact noStall_finalErr _ _
+
+/-- no CR, no LF -/
+def NoEOL (l : List UInt8) : Prop := ∀ b ∈ l, isEOL b = false
+
+theorem breakEOL_noEOL {l : List UInt8} (h : NoEOL l) : breakEOL l = (l, []) := by
+  induction l with
+  | nil => rfl
+  | cons b bs ih =>
+    have hb : isEOL b = false := h b (by simp)
+    have := ih (fun c hc => h c (by simp [hc]))
+    simp [breakEOL, hb, this]
+
+/-- more than `maxLineSize` bytes without CR/LF at the head of the data: too long, whatever follows -/
+theorem lineTooLong_of_noEOL {l : List UInt8} (x : List UInt8) (h : NoEOL l) (hlen : maxLineSize < l.length) :
+    lineTooLong (l ++ x) = true := by
+  apply lineTooLong_append
+  simp only [lineTooLong, breakEOL_noEOL h, decide_eq_true_eq]
+  omega
+
+theorem lineTooLong_of_noEOL' {l : List UInt8} (h : NoEOL l) (hlen : maxLineSize < l.length) :
+    lineTooLong l = true := by
+  simpa using lineTooLong_of_noEOL [] h hlen
+
+theorem firstLong_of_lineTooLong {bs : List UInt8} (h : lineTooLong bs = true) :
+    linesBefore bs = [] ∧ firstLong bs = true := by
+  have h1 := drainL_bytes bs
+  rw [drainL_long h] at h1
+  exact ⟨(congrArg Prod.fst h1).symm, (congrArg Prod.snd h1).symm⟩
+
+theorem noEOL_replicate (n : Nat) : NoEOL (List.replicate n 97) := by
+  intro b hb
+  rw [List.eq_of_mem_replicate hb]; decide
+
+/-- at most `maxLineSize` bytes without CR/LF, then the end of the data: one line -/
+theorem drainL_noEOL {l : List UInt8} (f : Bool) (h : NoEOL l) (hne : l ≠ []) (hlen : l.length ≤ maxLineSize) :
+    drainL f l = ([l], false) := by
+  have hb := breakEOL_noEOL h
+  have hl : lineTooLong l = false := by simp [lineTooLong, hb]; omega
+  have hs : splitLine f l true = .tok l.length l := by
+    unfold splitLine
+    have : (true && l.isEmpty) = false := by cases l <;> simp_all
+    rw [this, hb]; simp
+  rw [drainL_tok (by simp [hl]) hs]; simp [drainL_nil]
+
+theorem firstLong_iff (bs : List UInt8) :
+    firstLong bs = true ↔ ∃ l ∈ linesOf bs, maxLineSize < l.length := by
+  simp [firstLong, List.any_eq_true]
 
 end Go
 end Astisub
